@@ -180,9 +180,9 @@ def main(run):
                                 if len(run.samples) < 2 and n == 2 and c == 2 and isinstance(got, list):
                                     run.sample({**replay, "result": got})
     # ---------------- RiverWrapper
-    for rep in range(30 if not thorough else 200):
-        kind = rnd.choice(["dict", "float", "int", "bool", "str", "npfloat"])
-        labels = rnd.sample(["cat", "dog", "bird", "fish", "x"], rnd.choice([2, 3, 5]))
+    for rep in range(90 if not thorough else 400):
+        kind = ["dict", "float", "int", "bool", "str", "npfloat", "str"][rep % 7]
+        labels = rnd.sample(["cat", "dog", "bird", "fish", "x", "y", "z"], [2, 3, 5, 7][rep % 4])
 
         def pred(x, kind=kind, labels=labels):
             s = int(sum(x.values()))
